@@ -359,7 +359,8 @@ class Gen(object):
             if f in self.specfuncs:
                 args = [ev(a) for a in n.args]
                 sf = self.specfuncs[f]
-                args = [to_real(a) if sf.decl.domain(k) == R else a for k, a in enumerate(args)]
+                args = [a.arr if isinstance(a, SList) else (to_real(a) if sf.decl.domain(k) == R else a)
+                        for k, a in enumerate(args)]
                 return sf.decl(*args)
             if f in ('forall', 'exists'):
                 raise Unsupported('quantifier nested inside a term')
@@ -1057,6 +1058,8 @@ class Gen(object):
             path.env[idx] = lo
             if kind == 'range' and isinstance(st.target, ast.Name):
                 path.env[st.target.id] = lo       # loop variable == position at the loop head
+        for ghost, src in spec.get('snapshot', {}).items():
+            path.env[ghost] = path.env[src]          # ghost copy of a variable's value at loop entry
         # establish
         for j, txt in enumerate(invs):
             self.oblige('loop%d.inv[%d].establish@%d' % (k, j, st.lineno), path, self.spec(txt, path.env), 'scaffolding',
